@@ -170,29 +170,45 @@ package types
 
 // ---- Set and Map: abstracted by version counters (types/map.go is a lock-free port of sync.Map on atomics and
 // unsafe and is outside the verified subset; Set is a mutex-protected Go map) ---------------------------
-//@ ghost field (*Set).$setver int
 //@ ghost field (*Map).$mapver int
 
+// Set: a mutex-protected Go map; the contracts speak about the map itself (s.cache), no abstraction in between
 //@ func (*Set).Has(key)
-//@   trusted "mutex-protected Go map abstracted as a function of (set, key, version)"
-//@   pure
-//@   ensures result == uf_b_setHas(s, key, s.$setver)
+//@   props C20
+//@   requires s != nil
+//@   modifies nothing
+//@   ensures [C20.set.has] result == maphas(s.cache, key)
 
 //@ func (*Set).Keys()
-//@   trusted "mutex-protected Go map abstracted as a function of (set, key, version); Keys lists exactly the members"
-//@   pure
-//@   ensures forall k int :: 0 <= k && k < len(result) ==> uf_b_setHas(s, result[k], s.$setver)
+//@   props C20
+//@   requires s != nil
+//@   modifies nothing
+//@   loop 1 invariant forall k int :: 0 <= k && k < len(list) ==> maphas(s.cache, list[k])
+//@   loop 1 invariant cap(list) == 0 || fresh(backing(list))
+//@   ensures [C20.set.keys] forall k int :: 0 <= k && k < len(result) ==> maphas(s.cache, result[k])
+
 //@ func (*Set).Delete(keys)
-//@   trusted "mutex-protected Go map abstracted as a function of (set, key, version)"
-//@   modifies s.$setver
+//@   props C20
+//@   requires s != nil
+//@   modifies MapOf(s.cache)
+//@   loop 1 invariant forall k int :: 0 <= k && k < $i ==> !maphas(s.cache, keys[k])
+//@   ensures [C20.set.delete] forall k int :: 0 <= k && k < len(keys) ==> !maphas(s.cache, keys[k])
+
+// every key of the call is a member afterwards - also the keys that follow one that was already present
 //@ func (*Set).Add(keys)
-//@   trusted "mutex-protected Go map abstracted as a function of (set, key, version)"
-//@   modifies s.$setver
+//@   props C20
+//@   requires s != nil && s.cache != nil
+//@   modifies MapOf(s.cache)
+//@   loop 1 invariant s.cache != nil && forall k int :: 0 <= k && k < $i ==> maphas(s.cache, keys[k])
+//@   ensures [C20.set.add] forall k int :: 0 <= k && k < len(keys) ==> maphas(s.cache, keys[k])
+//@   ensures [C20.set.addresult] result == (len(keys) > 0)
+
 //@ func NewSet(keys)
-//@   trusted "mutex-protected Go map abstracted as a function of (set, key, version); the new set holds exactly the given keys"
-//@   fresh
-//@   ensures result != nil
-//@   ensures forall k int :: 0 <= k && k < len(keys) ==> uf_b_setHas(result, keys[k], result.$setver)
+//@   props C20
+//@   modifies nothing
+//@   loop 1 invariant s != nil && fresh(s) && s.cache != nil && fresh(s.cache) && forall k int :: 0 <= k && k < $i ==> maphas(s.cache, keys[k])
+//@   ensures [C20.set.new] result != nil && fresh(result) && result.cache != nil && fresh(result.cache)
+//@   ensures [C20.set.newkeys] forall k int :: 0 <= k && k < len(keys) ==> maphas(result.cache, keys[k])
 
 //@ func (*Map).Load(key)
 //@   trusted "types/map.go (sync.Map port on atomics/unsafe) is outside the verified subset"
@@ -366,9 +382,9 @@ package types
 //@ func parseVary(vary)
 //@   props C17, C09
 //@   modifies nothing
-//@   loop 1 invariant 0 <= start && start <= end && end <= i && i <= l && l == len(vary) && list != nil
+//@   loop 1 invariant 0 <= start && start <= end && end <= i && i <= l && l == len(vary) && list != nil && list.cache != nil && fresh(list) && fresh(list.cache)
 //@   loop 1 decreases l - i
-//@   ensures [C17.vary.parsed] result != nil && fresh(result)
+//@   ensures [C17.vary.parsed] result != nil && fresh(result) && result.cache != nil && fresh(result.cache)
 
 // the middleware: preflight requests are answered here (status, Content-Length: 0, one write, the chain stops) unless the
 // policy passes them on; every other request gets the origin / credentials / exposed headers and continues
